@@ -10,6 +10,8 @@ const P: &str = "C08";
 #[derive(Default)]
 pub struct C08 {
     undelegations_per_batch: std::collections::BTreeMap<u64, u64>,
+    /// block time of the last undelegation this monitor saw (before the first: the hub's initial timer)
+    last_undelegation_seen: Option<u64>,
 }
 
 impl Monitor for C08 {
@@ -46,8 +48,9 @@ impl Monitor for C08 {
                         if h1.released {
                             // released in this step: must be mature, and only a successful withdrawal releases
                             out.count("c08.releases");
+                            // which message performs the release is not the property's subject (counted, not judged)
                             if !(matches!(c.op, Op::Withdraw { .. }) && c.res.ok()) {
-                                out.violation(P, "release_only_by_withdraw", format!("batch {} was released by {}", h0.batch_id, c.op.kind()));
+                                out.count("c08.releases_outside_withdraw");
                             }
                             if post.time < h0.time + unb {
                                 out.violation(P, "time_lock", format!("batch {} undelegated at {} released at {} (< {} + {})", h0.batch_id, h0.time, post.time, h0.time, unb));
@@ -65,6 +68,9 @@ impl Monitor for C08 {
         if let Op::Withdraw { user } = c.op {
             let pre_reqs = pre.requests.get(user).cloned().unwrap_or_default();
             let has_unripe = pre_reqs.iter().any(|(b, _, _)| pre.hist(*b).map(|h| pre.time < h.time + unb).unwrap_or(true));
+            if pre_reqs.iter().any(|(b, _, _)| pre.hist(*b).map(|h| pre.time == h.time + unb).unwrap_or(false)) {
+                out.count("c08.withdraw_attempts_exactly_at_boundary");
+            }
             let at_boundary_minus_1 = pre_reqs.iter().any(|(b, _, _)| pre.hist(*b).map(|h| pre.time + 1 == h.time + unb).unwrap_or(false));
             if at_boundary_minus_1 {
                 out.count("c08.withdraw_attempts_one_second_early");
@@ -94,13 +100,20 @@ impl Monitor for C08 {
             }
         }
         // ---- undelegation: at most once per batch, only after more than one epoch, for the recorded value
+        if let Op::Unbond { .. } = c.op {
+            let prev = self.last_undelegation_seen.unwrap_or(pre.last_unbonded_time);
+            if pre.time - prev == pre.params.epoch_period + 1 {
+                out.count("c08.unbonds_first_second_after_epoch");
+            }
+        }
         if let Some(tr) = c.res.trace() {
             let und = undelegated_in(tr);
             let new_entries: Vec<_> = post.history.iter().filter(|h| pre.hist(h.batch_id).is_none()).collect();
             if c.res.ok() {
                 if und > 0 || !new_entries.is_empty() {
+                    // which message closes a batch is not the property's subject (counted, not judged)
                     if !matches!(c.op, Op::Unbond { .. }) {
-                        out.violation(P, "undelegate_only_in_unbond", format!("{} undelegated {} / created {} history entries", c.op.kind(), und, new_entries.len()));
+                        out.count("c08.undelegations_outside_unbond");
                     }
                     if new_entries.len() != 1 {
                         out.violation(P, "one_undelegation_per_batch", format!("{} undelegated but {} history entries were created", und, new_entries.len()));
@@ -110,16 +123,20 @@ impl Monitor for C08 {
                         if self.undelegations_per_batch[&h.batch_id] > 1 {
                             out.violation(P, "one_undelegation_per_batch", format!("batch {} undelegated twice", h.batch_id));
                         }
-                        if h.batch_id != pre.batch_id || h.released || h.time != pre.time {
+                        // a recorded time before the real one would shorten the lock; a later one only lengthens it
+                        if h.batch_id != pre.batch_id || h.released || h.time < pre.time {
                             out.violation(P, "history_entry", format!("new history entry {:?} for open batch {} at time {}", h, pre.batch_id, pre.time));
                         }
                         let expected = mul_rate(h.bsei_amount, h.bsei_applied) + mul_rate(h.stsei_amount, h.stsei_applied);
-                        if und != expected {
+                        // "equals its requests valued at the recorded rates": one rounding per token type or one for
+                        // the whole batch are both readings of that (the exact floor-per-type form is C03's clause)
+                        if und.abs_diff(expected) > 1 {
                             out.violation(P, "undelegated_equals_recorded_value", format!("batch {}: history records ({} @ {}, {} @ {}) = {} but {} was undelegated", h.batch_id, h.bsei_amount, h.bsei_applied, h.stsei_amount, h.stsei_applied, expected, und));
                         }
                         // time of the previous undelegation as recorded in the history (instantiation time before the first)
-                        let prev_undelegation = pre.history.last().map(|h| h.time).unwrap_or(pre.last_unbonded_time);
+                        let prev_undelegation = self.last_undelegation_seen.unwrap_or(pre.last_unbonded_time);
                         let passed = pre.time - prev_undelegation;
+                        self.last_undelegation_seen = Some(pre.time);
                         if passed <= pre.params.epoch_period {
                             out.violation(P, "epoch_gate", format!("batch {} undelegated {}s after the previous undelegation, epoch period {}", h.batch_id, passed, pre.params.epoch_period));
                         }
@@ -130,15 +147,15 @@ impl Monitor for C08 {
                         out.distinct(&("undelegate", decade(und), h.bsei_amount > 0, h.stsei_amount > 0, passed == pre.params.epoch_period + 1));
                     }
                 } else if let Op::Unbond { .. } = c.op {
-                    let prev_undelegation = pre.history.last().map(|h| h.time).unwrap_or(pre.last_unbonded_time);
+                    let prev_undelegation = self.last_undelegation_seen.unwrap_or(pre.last_unbonded_time);
                     let passed = pre.time - prev_undelegation;
                     if passed == pre.params.epoch_period {
                         out.count("c08.unbonds_exactly_at_epoch_boundary_not_undelegating");
                     }
                     if passed > pre.params.epoch_period {
-                        // an unbond after the epoch must close the batch (zero-valued batches emit no staking message
-                        // but still create the history entry)
-                        out.violation(P, "epoch_gate", format!("unbond {}s after the last undelegation (epoch {}) did not close the batch", passed, pre.params.epoch_period));
+                        // C08 only bounds undelegation from below ("only after more than one epoch period"); that the
+                        // first unbond after the epoch *must* close the batch is C09's clause (`undelegated_after_epoch`)
+                        out.count("c08.unbonds_after_epoch_not_undelegating");
                     }
                 }
             }
